@@ -492,64 +492,61 @@ func checkC16(c *Case, st *Stats) *Violation {
 		s = runOps(*c.Cfg, c.Ops, 0, true)
 	}
 	closed := false
-	firstClose := -1
-	dataBefore := 0
-	emittedAtClose := 0
 	emitted := 0
 	for i, o := range c.Ops {
 		r := f.Ops[i]
 		if o.K == "R" {
 			closed = false
-			if firstClose < 0 {
-				dataBefore, emitted = 0, 0
-			}
+			emitted = 0
 			continue
 		}
 		if hasStd && (r.Err == "") != (s.Ops[i].Err == "") {
 			return viol(c, "errpattern/"+stateName(closed)+o.K+"/"+cfgClass(*c.Cfg), "%s: op %d (%s, %s) returned %q but the standard library returned %q; sequence %s", c.Cfg, i, o.K, stateName(closed), r.Err, s.Ops[i].Err, opsShape(c.Ops))
 		}
 		if closed {
-			switch o.K {
-			case "C":
-				if r.Err != "" {
+			if r.Emitted != 0 {
+				k := "after-close-emits/" + o.K
+				if o.K == "C" {
+					k = "reclose-emits"
+				}
+				return viol(c, k+"/"+cfgClass(*c.Cfg), "%s: %s after a successful Close emitted %d more bytes (sequence %s)", c.Cfg, o.K, r.Emitted, opsShape(c.Ops))
+			}
+			if !hasStd {
+				// no standard-library twin (4 KiB-window constructor): the protocol of compress/flate applies
+				if o.K == "C" && r.Err != "" && !failedSince(f, c.Ops, i) {
 					return viol(c, "reclose-error/"+cfgClass(*c.Cfg), "%s: repeated Close returned %q", c.Cfg, r.Err)
 				}
-				if r.Emitted != 0 {
-					return viol(c, "reclose-emits/"+cfgClass(*c.Cfg), "%s: repeated Close emitted %d more bytes", c.Cfg, r.Emitted)
-				}
-			default:
-				if r.Err == "" && !(o.K == "W" && len(o.D) == 0 && hasStd && s.Ops[i].Err == "") {
+				if o.K != "C" && r.Err == "" {
 					return viol(c, "after-close-ok/"+o.K+"/"+cfgClass(*c.Cfg), "%s: %s after Close returned nil", c.Cfg, o.K)
-				}
-				if r.Emitted != 0 {
-					return viol(c, "after-close-emits/"+o.K+"/"+cfgClass(*c.Cfg), "%s: %s after Close emitted %d bytes", c.Cfg, o.K, r.Emitted)
 				}
 			}
 			continue
 		}
 		emitted += r.Emitted
-		if o.K == "W" && r.Err == "" {
-			dataBefore += r.N
-		}
 		if o.K == "C" && r.Err == "" {
 			closed = true
-			if firstClose < 0 {
-				firstClose = i
-				emittedAtClose = emitted
-				// bytes up to the first successful Close form a complete stream of the data before it
-				seg := segmentOut(f, c.Ops, i)
-				want := segmentData(c.Ops, i)
-				if msg := checkCompleteStream(*c.Cfg, seg[:min(len(seg), emittedAtClose)], want); msg != "" {
-					return viol(c, "first-close-stream/"+cfgClass(*c.Cfg), "%s: bytes up to the first Close: %s", c.Cfg, msg)
-				}
+			// bytes of this stream up to its first successful Close form a complete stream of the data before it
+			seg := segmentOut(f, c.Ops, i)
+			want := segmentData(c.Ops, i)
+			if msg := checkCompleteStream(*c.Cfg, seg[:min(len(seg), emitted)], want); msg != "" {
+				return viol(c, "first-close-stream/"+cfgClass(*c.Cfg), "%s: bytes up to the first Close (sequence %s): %s", c.Cfg, opsShape(c.Ops), msg)
 			}
 		}
 	}
-	_ = dataBefore
 	st.Count("setting:" + c.Cfg.String())
 	c.Sig = fmt.Sprintf("%s|%s", c.Cfg, opsShapeFull(c.Ops))
 	c.Trivial = !sequenceInteresting(c.Ops)
 	return nil
+}
+
+// failedSince reports whether an op since the last Reset before i returned an error.
+func failedSince(tr wTrace, ops []Op, i int) bool {
+	for j := i - 1; j >= 0 && ops[j].K != "R"; j-- {
+		if tr.Ops[j].Err != "" {
+			return true
+		}
+	}
+	return false
 }
 
 func stateName(closed bool) string {
